@@ -4,10 +4,30 @@ import ast
 from .. import tables
 from ..flow import GuardMap
 from ..model import AnalysisError, norm
+from ..specialise import flat
 from .common import must_pass, names_in, guard_requires
 
 PCV = 'PandasConstraintVerifier'
 FUZZY_PAIR = {'call:fuzzy_greater_than': 'call:df_fuzzy_gt', 'call:fuzzy_less_than': 'call:df_fuzzy_lt'}
+
+
+def _notnull_of_column(fnode, v):
+    """v is pd.notnull(X) / pd.notna(X) / X.notnull() / X.notna() with X the column being checked: self.df[colname], or a
+    local bound once to it"""
+    x = None
+    if isinstance(v, ast.Call) and isinstance(v.func, ast.Attribute) and v.func.attr in ('notnull', 'notna') and not v.keywords:
+        if isinstance(v.func.value, ast.Name) and v.func.value.id == 'pd' and len(v.args) == 1:
+            x = v.args[0]
+        elif not v.args:
+            x = v.func.value
+    if x is None:
+        return False
+    if isinstance(x, ast.Name):
+        defs = [a for a in ast.walk(fnode) if isinstance(a, ast.Assign) and any(isinstance(t, ast.Name) and t.id == x.id for t in a.targets)]
+        if len(defs) != 1:
+            return False
+        x = defs[0].value
+    return norm(x).replace(' ', '') == 'self.df[colname]'
 
 
 def kinds_and_methods(p):
@@ -22,12 +42,14 @@ def kinds_and_methods(p):
                     ver = p.lookup_method(pcv.qn, v.attr)
                     if ver is None:
                         raise AnalysisError('verifier %s not found' % v.attr)
+                    ver = flat(p, ver, pcv.qn)       # a wrapper over a shared helper / a table-driven arm is read as the body it runs
                     det = None
                     for c in ast.walk(ver.node):
                         if isinstance(c, ast.Call) and isinstance(c.func, ast.Attribute) and \
                                 isinstance(c.func.value, ast.Name) and c.func.value.id == 'self' and \
                                 c.func.attr.startswith('detect_'):
                             det = p.lookup_method(pcv.qn, c.func.attr)
+                            det = flat(p, det, pcv.qn) if det is not None else None
                     out[k.value] = (ver, det)
     if len(out) < 10:
         raise AnalysisError('verifiers() registers %d kinds; 10 on the pinned tree' % len(out))
@@ -139,7 +161,7 @@ def check(run):
                 ok = True
             elif isinstance(v, ast.Call) and getattr(v.func, 'id', '') == 'detection_field' and len(v.args) >= 2:
                 ok = True
-            elif kind == 'max_nulls' and norm(v).replace(' ', '') in ('pd.notnull(c)', 'c.notnull()', 'pd.notna(c)', 'c.notna()'):
+            elif kind == 'max_nulls' and _notnull_of_column(det.node, v):
                 ok = True
             run.ob('C06-NULLFLAG', '%s::%s::%s' % (det.rel, det.short, '|'.join(lab)), ok,
                    'flag value %s' % why, fn=det, node=s)
